@@ -84,7 +84,7 @@ M = [
 
 
 def sh(cmd, **kw):
-    return subprocess.run(cmd, shell=True, capture_output=True, text=True, cwd=VERIF, env=dict(os.environ, SPOX_REPO=str(REPO)), **kw)
+    return subprocess.run(cmd, shell=True, capture_output=True, text=True, cwd=VERIF, env=dict(os.environ, SPOX_REPO=str(REPO), VERIF_NO_ESCALATE="1"), **kw)
 
 
 def main(argv):
